@@ -652,6 +652,12 @@ func (d *BasicDirectory) computeEstimatedSizeAndTotalLinks() {
 		// The mode and mtime fields are extracted in NewBasicDirectoryFromNode
 		// or set via WithStat option during creation.
 		d.estimatedSize = dataFieldSerializedSize(d.mode, d.mtime)
+		// Prefer the node's actual UnixFS data when present: a loaded node may
+		// carry fields the mode/mtime pair cannot express (explicit zero mode,
+		// extended mode bits) and they are part of the serialized block.
+		if data := d.node.Data(); len(data) > 0 {
+			d.estimatedSize = 1 + varintLen(uint64(len(data))) + len(data)
+		}
 
 		// Add link sizes using linkSerializedSize function
 		for _, l := range d.node.Links() {
